@@ -178,6 +178,10 @@ fn main() {
             let s = record_reader::record_source(&get("out", "work/source.ndjson"), seed, get("n", "200").parse().unwrap(), get("max-len", "200").parse().unwrap());
             println!("SUMMARY {}", serde_json::to_string(&s).unwrap());
         }
+        "de-probe" => {
+            // qxv de-probe --ty F32 --xml '<F32>...</F32>' : what from_str gives for one document
+            println!("{:?}", family::de_str(&get("ty", "F01"), &get("xml", "<a/>")));
+        }
         "any-probe" => {
             println!("{:?}", family::de_any(&get("xml", "<a/>")));
         }
